@@ -300,6 +300,40 @@ def rule_p5(F):
     return r
 
 
+def rule_p6(F):
+    """`{{` and `}}` are escapes in f-strings only: the code that collapses doubled braces must not be on the path of plain string
+    (or char) literals - a shared unescape helper that does it changes the value of every plain string containing `{{`."""
+    from ..callgraph import CallGraph
+    r = RuleResult("C09.P6", "doubled braces are collapsed only for f-string text, never on the path of plain string literals", floor=1)
+    sites = []
+    for b in F.bodies_in(["src/parser/expr.rs", "src/parser/lexer.rs", "src/parser/mod.rs"]):
+        if not b.hir or "::tests::" in b.path:
+            continue
+        for c in hir.nodes(b.hir.get("value") or {}, "mcall"):
+            if c["m"] in ("replace", "replacen") and c["args"] and hir.strip(c["args"][0]).get("v") in ("{{", "}}"):
+                sites.append((b, c))
+    if not sites:
+        r.missing("the `{{` / `}}` replacement of f-string parts")
+        return r
+    cg = CallGraph(F)
+    plain = [p for p in F.paths() if p.endswith("::simple_literal") and "parser::expr" in p]
+    seen, parent = cg.reachable(plain) if plain else (set(), {})
+    done = set()
+    for b, c in sites:
+        owner = b.path.split("::{closure")[0]
+        if owner in done:
+            continue
+        done.add(owner)
+        on_plain = owner in seen or b.path in seen
+        r.inst("brace collapse in %s" % hir.last(owner), {"fn": owner, "line": c["line"], "reachable_from_simple_literal": on_plain})
+        if on_plain:
+            r.bad(owner, "brace collapse on the plain-string path", relfile(b.file), c["line"],
+                  "`{{` / `}}` are replaced in %s, which plain string literals also go through (%s): \"{{\" evaluates to \"{\"" % (hir.last(owner), " -> ".join(hir.last(x) for x in cg.chain(parent, owner))))
+    if not plain:
+        r.missing("parser simple_literal")
+    return r
+
+
 def names(e):
     """Names of the locals an expression mentions directly (not followed)."""
     return {n["res"]["name"] for n in hir.walk(e) if n.get("k") == "path" and hir.res_local(n) is not None}
@@ -518,4 +552,4 @@ def rule_p1(F):
 
 def rules(ctx):
     F = ctx["F"]
-    return [rule_p1(F), rule_p2(F), rule_p3(F), rule_p4(F), rule_p5(F)]
+    return [rule_p1(F), rule_p2(F), rule_p3(F), rule_p4(F), rule_p5(F), rule_p6(F)]
